@@ -152,8 +152,8 @@ Definition item_ok (c : sconn) (it : item) (s : RS.state) : bool :=
        RFC 6.3 allows it) is a connection error in the read loop.
    D3: a WINDOW_UPDATE on a stream the peer itself closed with RST_STREAM is ignored
        (RFC 5.1: stream error STREAM_CLOSED); the ring does not record who closed.
-   D6: a SETTINGS or GOAWAY frame carrying the id of a recently closed stream is answered
-       with GOAWAY(STREAM_CLOSED); RFC 6.5/6.8 name PROTOCOL_ERROR.
+   D6: a SETTINGS or GOAWAY frame carrying the id of a recently closed or half-closed stream is
+       answered with GOAWAY(STREAM_CLOSED); RFC 6.5/6.8 name PROTOCOL_ERROR.
    D7: the peer resets a stream whose response still has data queued: sendData runs once more
        on it, and if the body reader fails right then RST_STREAM(INTERNAL_ERROR) goes out in
        the same step as the peer's RST_STREAM is processed (RFC 6.4).  Needs send window to be
@@ -163,7 +163,10 @@ Definition known_deviation (c : sconn) (s : RS.state) (i : rl_input) : bool :=
   | RFrame f =>
     match sf_kind f with
     | KPriority => N.even (sf_sid f) && negb (sf_sid f =? 0)
-    | KSettings | KGoAway => negb (sf_sid f =? 0) && in_ring c (sf_sid f)
+    | KSettings | KGoAway =>
+      negb (sf_sid f =? 0) &&
+      (in_ring c (sf_sid f) ||
+       match strms_search (sc_strms c) (sf_sid f) with Some st => sstate_eqb (st_state st) SHalfClosed | None => false end)
     | KRst =>
       match strms_search (sc_strms c) (sf_sid f) with
       | Some st => st_responded st && negb (st_handlerRunning st) && has_more_to_send st
